@@ -458,6 +458,21 @@ CH = (r"self\.details\.is_null = self\.address\.0 == 0; "
 if not re.fullmatch(CH, ch):
     die("calculate_heuristics body changed; coq/C19/Model.v (heuristics) must be re-read against it:\n" + ch)
 
+# ------------------------------------------------------------------ MinidumpException::get_crash_address (minidump crate)
+mdrs = rd("minidump/src/minidump.rs")
+gca = norm(fn_body(mdrs, r"pub fn get_crash_address\(&self, os: Os, cpu: Cpu\) -> u64\s*\{", "get_crash_address"))
+GCA = ("let addr = match ( os, err::ExceptionCodeWindows::from_u32(self.raw.exception_record.exception_code), ) { "
+       "(Os::Windows, Some(err::ExceptionCodeWindows::EXCEPTION_ACCESS_VIOLATION)) | "
+       "(Os::Windows, Some(err::ExceptionCodeWindows::EXCEPTION_IN_PAGE_ERROR)) if self.raw.exception_record.number_parameters >= 2 => { "
+       "self.raw.exception_record.exception_information[1] } _ => self.raw.exception_record.exception_address, }; "
+       "match cpu.pointer_width() { PointerWidth::Bits32 => addr as u32 as u64, _ => addr, }")
+if gca != GCA:
+    die("MinidumpException::get_crash_address changed; coq/C19/Driver.v (q_address) must be re-read against it:\n" + gca)
+wcodes = {n: int(v, 0) for n, v in re.findall(r"(EXCEPTION_ACCESS_VIOLATION|EXCEPTION_IN_PAGE_ERROR)\s*=\s*(0x[0-9a-fA-F]+)(?:u32)?\s*,",
+                                              fn_body(errs, r"pub enum ExceptionCodeWindows\s*\{", "ExceptionCodeWindows"))}
+if set(wcodes) != {"EXCEPTION_ACCESS_VIOLATION", "EXCEPTION_IN_PAGE_ERROR"}:
+    die("ExceptionCodeWindows: EXCEPTION_ACCESS_VIOLATION / EXCEPTION_IN_PAGE_ERROR values not found")
+
 # ------------------------------------------------------------------ amd64 register names (BTreeSet<&'static str> order, rsp)
 cx = rd("minidump/src/context.rs")
 m = re.search(r"impl CpuContext for md::CONTEXT_AMD64 \{\s*type Register = u64;\s*const REGISTERS: &'static \[&'static str\] = &\[(.*?)\];", cx, re.S)
@@ -544,6 +559,10 @@ L.append("(* BitFlipDetails::confidence: guard and index of the NEARBY_REGISTER 
 L.append("   too large value is an index/overflow panic) *)")
 L.append("Definition NEARBY_GUARD (n : Z) : bool := %s." % guard)
 L.append("Definition NEARBY_INDEX (NEARBY_LEN n : Z) : Z := %s." % index)
+L.append("")
+L.append("(* get_crash_address (pinned textually): the Windows exception codes whose exception_information[1] is the address *)")
+L.append("Definition WIN_EXCEPTION_ACCESS_VIOLATION : Z := %d." % wcodes["EXCEPTION_ACCESS_VIOLATION"])
+L.append("Definition WIN_EXCEPTION_IN_PAGE_ERROR : Z := %d." % wcodes["EXCEPTION_IN_PAGE_ERROR"])
 L.append("")
 L.append("(* CONTEXT_AMD64::REGISTERS = %s; register id = position in that list (valid_registers() order).")
 L[-1] = L[-1] % " ".join(amd64_regs)
